@@ -66,6 +66,10 @@ Proof.
   split; [apply frame_length_tie|]. split; [apply geom_nblk_tie | reflexivity].
 Qed.
 
+(* the model's buffers have no dtype of their own: _x_buf and _y_buf are allocated once, at construction, as float64 *)
+Lemma si_buffer_storage_tie : g_si_xbuf_is_f64_alloc_once = true /\ g_si_ybuf_is_f64_alloc_once = true.
+Proof. split; reflexivity. Qed.
+
 Section Tie.
   Variable K : Type.
   Variable kzero : K.
